@@ -169,7 +169,7 @@ def run(tier, seed, replay=None):
     other_m = [m for m in mism if m["kind"] not in ("spec", "model")]
     if spec_m:
         worst = min(spec_m, key=lambda m: (len(m["case"].split("\t")[3]) if m["case"].count("\t") >= 4 else 999, len(m["case"])))
-        hang = worst["impl"].endswith("|HANG")
+        hang = worst["impl"].endswith("|HANG") or "TIMEOUT-STUCK@r_" in worst["impl"]
         res.violation(("run() never returns although every delivered event had been received: " if hang else "property violated: %s: " % worst["expected"])
                       + describe(worst["case"]),
                       {"theorem_or_correspondence": "C17 oracle: real threads vs specification (C17_statement clause %s)" % ("4" if hang else "1-3"),
@@ -178,7 +178,7 @@ def run(tier, seed, replay=None):
                                           "commands R run, V recv, K cont, A<r>/D<r> add/delete breakpoint (rule index in the CFG line of `c17 entries`)",
                        "others": len(spec_m) - 1})
     elif model_m:
-        worst = min(model_m, key=lambda m: len(m["case"]))
+        worst = min(model_m, key=lambda m: (m["impl"].startswith("SKIPPED"), len(m["case"])))
         res.violation("correspondence broken: the real threads do not follow coq/Debugger/Proto.v on %s, but no schedule was found on which "
                       "the received events or termination violate the specification" % describe(worst["case"]),
                       {"theorem_or_correspondence": "C17 correspondence: real control-point trace / events / termination vs extracted model",
